@@ -696,8 +696,9 @@ def corr_numbers(ctx, drv, sat, instants_ns, batch):
                                          "period_unit": per_u, "queries": [q[1] for q in us_q]})))
     ctx.count("eval_corr_init")
     if us_q:
-        ctx.bump("epoch_branch", "within_1km_before_node" if -1 <= us_q[0][2] < 0 and vz_e > 0 else
-                 "within_1km_past_node" if 0 < us_q[0][2] <= 1 and vz_e > 0 else "exact_zero" if us_q[0][2] == 0 else "elsewhere")
+        ctx.bump("epoch_branch", "at_node_before" if -1 <= us_q[0][2] < 0 and vz_e > 0 else
+                 "at_node_past" if 0 < us_q[0][2] <= 1 and vz_e > 0 else "at_node_exact_zero" if us_q[0][2] == 0 and vz_e > 0 else
+                 "within_1km_descending" if abs(us_q[0][2]) <= 1 else "elsewhere")
     # every get_last_an_time made by the initialisation, on its own
     for c in rec.an_calls:
         t, u = ticks_of(c["arg"])
@@ -983,13 +984,17 @@ def match_known(entry, v):
         return (v["kind"] == "count" and c.get("exact_nodes_rel_error", 0.0) >= m.get("min_exact_nodes_rel_error", 9.9)
                 and c.get("eccentricity", 0.0) >= m.get("min_eccentricity", 1.0)
                 and c.get("abs_sin_inclination", 1.0) <= m.get("max_abs_sin_inclination", 0.0))
-    if m.get("kind") == "count_epoch_1km_before_node":
-        # the epoch lies less than 1 km (so it "is at the node") but more than 2 s before the ascending node: the number counted
-        # from that node is one less than the crossing count over the whole window
+    if m.get("kind") == "count_epoch_within_1km_of_node":
+        # the epoch lies within 1 km of the ascending node (so it "is" the node and orbit number rev starts there) but more than
+        # 2 s of flight away from it. Before the node: that node is numbered rev instead of rev + 1, every number in the window
+        # is one less than the crossing count. Past the node: every increment is late by that flight time, visible at the
+        # first crossings, where the slack is still smaller than it.
         c = v["case"]
         z, vz = c.get("epoch_z_km", 0.0), c.get("epoch_vz_kms", 0.0)
-        return (v["kind"] == "count" and -1.0 <= z < 0 and vz > 0 and -z / vz > m.get("min_seconds_before_node", 9e9)
-                and c.get("lo") == c.get("hi") and v["observed"] == c.get("lo") - 1)
+        if not (v["kind"] == "count" and abs(z) <= 1.0 and vz > 0 and abs(z) / vz > m.get("min_seconds_from_node", 9e9)
+                and c.get("lo") == c.get("hi") and v["observed"] == c.get("lo") - 1):
+            return False
+        return z < 0 or c.get("slack_s", 9e9) < z / vz
     return False
 
 
